@@ -299,6 +299,21 @@ def r1(ctx):
                         bad["declined-changes-nothing"].append("%s: store reached: %s" % (tag, log))
     ctx.check(not bad["termination"], "C10.R1", RUN, "acceptor.returns-on-every-script", "%d scripts (frames up to length %d over {Init,Sync,Abort,undecodable}, then close) evaluated; panics / not evaluable: %s" % (n, max_len, bad["termination"][:3]), run.sp)
     ctx.check(not bad["outcome-reportable"], "C10.R1", RUN, "acceptor.outcome-reportable-after-every-exit", "into_outcome evaluated on the state left by each of the %d runs; failing: %s" % (n, bad["outcome-reportable"][:3]), run.sp)
+    # "the accepting side can always report its outcome": once the callback allowed a request, every error the acceptor returns
+    # names the peer and the document (the live actor reports and releases by them; same clause as C11.R3)
+    unnamed = []
+    nn = 0
+    for frames in _scripts(2):
+        if not frames or frames[0] != "Init":
+            continue
+        for proc in PROCS:
+            for send_ok in (True, False):
+                nn += 1
+                res2 = eval_bob(f, frames, "Allow", proc, send_ok, raw=True)[0]
+                if isinstance(res2, str) and res2.startswith("Err") and not res2.startswith("Err(Abort") and ("Some(ns)" not in res2 or "peer" not in res2):
+                    unnamed.append("frames=%s process=%s send=%s: %s" % ("+".join(frames), "/".join(proc), send_ok, res2[:80]))
+    ctx.check(not unnamed and nn >= 40, "C10.R2", RUN, "acceptor.error-of-an-allowed-session-names-the-document",
+              "%d acceptor scripts with an allowed request: errors not naming (peer, Some(namespace)): %s" % (nn, unnamed[:3]), run.sp)
     ctx.check(not bad["outcome-threaded"], "C10.R2", RUN, "acceptor.reports-the-last-progress", "the outcome collected after each of the %d runs is the progress returned by the last processed message "
               "(what the initiator's counters mirror); deviating: %s" % (n, bad["outcome-threaded"][:3]), run.sp)
     ctx.check(not bad["protocol"], "C10.R2", RUN, "acceptor.protocol-table", "%d scripts compared with the protocol (Init first and once, callback asked before anything is processed, Sync only after Init, Abort/garbage/early close are errors, progress threaded, first failure ends the session with an error); deviating: %s" % (n, bad["protocol"][:3]), run.sp)
